@@ -392,7 +392,7 @@ fn stitch_check(sh: &mut Shard, a: &IG, lat: &Lat, ts: &[Triangle<f64>], model: 
                 println!("stitch: {} members, area2 {} expected {}", mp.0.len(), sum, area2);
             }
             if sum != area2 {
-                sh.violation(&format!("stitch.area|{}|{}", a.kind(), if rings_touch(a) { "stitch_touching_rings" } else { "-" }), detail("stitch.area", a, lat, area2.to_string(), sum.to_string(), json!({"stitched": format!("{:?}", mp)})));
+                sh.violation(&format!("stitch.area|{}|{}", a.kind(), "-"), detail("stitch.area", a, lat, area2.to_string(), sum.to_string(), json!({"stitched": format!("{:?}", mp)})));
                 return;
             }
             // same region: locations agree on every lattice and half-lattice point of the envelope
@@ -406,7 +406,7 @@ fn stitch_check(sh: &mut Shard, a: &IG, lat: &Lat, ts: &[Triangle<f64>], model: 
                     let q = (Q::new(hx as i128, 2), Q::new(hy as i128, 2));
                     let (l1, l2) = (model.loc(q), sm.loc(q));
                     if (l1 == Loc::E) != (l2 == Loc::E) || (l1 == Loc::I) != (l2 == Loc::I) {
-                        sh.violation(&format!("stitch.same_region|{}|{}", a.kind(), if rings_touch(a) { "stitch_touching_rings" } else { "-" }), detail("stitch.same_region", a, lat, format!("{:?}", l1), format!("{:?}", l2), json!({"half_lattice": [hx, hy], "stitched": format!("{:?}", mp)})));
+                        sh.violation(&format!("stitch.same_region|{}|{}", a.kind(), "-"), detail("stitch.same_region", a, lat, format!("{:?}", l1), format!("{:?}", l2), json!({"half_lattice": [hx, hy], "stitched": format!("{:?}", mp)})));
                         return;
                     }
                 }
